@@ -34,7 +34,8 @@ CONSTANTS
     StaleTicks,   \* staleness threshold of the RTT estimate (600 s in the code)
     MaxNow,       \* model bound on the clock
     FixD1,        \* TRUE: final time-out removes the table entry (repaired code)
-    Msgs          \* set of abstract inbound message templates
+    Msgs,         \* set of abstract inbound message templates
+    Apps          \* set of application attribute type lists
 
 VARIABLES
     now,      \* instant of the last call
@@ -114,13 +115,30 @@ NotifEv(h, t) == IF h = {} THEN <<>>
                  ELSE LET e == HeapMin(h)
                       IN <<[k |-> "rto", id |-> e.id, dur |-> Max(0, e.at + e.dur - t), x |-> TRUE]>>
 
-OutDesc(id, cls, alg_) ==
-    [ok |-> TRUE, cls |-> cls, id |-> id,
-     fp |-> IF UseFp THEN "valid" ELSE "absent", fp_last |-> UseFp,
-     mi |-> IF Mech = "st" /\ alg_ \in {"none", "mi"} THEN "valid" ELSE "absent",
-     sha |-> IF Mech = "st" /\ alg_ \in {"none", "sha"} THEN "valid" ELSE "absent",
+\* message.rs StunAttributes (add replaces in place; three dedicated tail slots) followed by the
+\* mechanism's decoration (st_cred_mech.rs: strip USERNAME/MI/SHA, add USERNAME, add MI and/or SHA)
+\* and fingerprint.rs -- the type codes that end up on the wire
+BuildTypes(app, alg_) ==
+    LET ord0 == SelectSeq(Dedup(app, {}), LAMBDA t : t \notin {8, 28, 32808})
+        has(t) == \E i \in DOMAIN app : app[i] = t
+        ord == IF Mech = "st" THEN SelectSeq(ord0, LAMBDA t : t # 6) \o <<6>> ELSE ord0
+        mi == IF Mech = "st" THEN alg_ \in {"none", "mi"} ELSE has(8)
+        sha == IF Mech = "st" THEN alg_ \in {"none", "sha"} ELSE has(28)
+        fp == UseFp \/ has(32808)
+    IN ord \o (IF mi THEN <<8>> ELSE <<>>) \o (IF sha THEN <<28>> ELSE <<>>)
+           \o (IF fp THEN <<32808>> ELSE <<>>)
+
+OutDesc(id, cls, alg_, app) ==
+    [ok |-> TRUE, cls |-> cls, id |-> id, size_ok |-> TRUE, method |-> 1,
+     types |-> BuildTypes(app, alg_),
+     lt |-> [mi_keys |-> <<>>, sha_keys |-> <<>>],
+     fp |-> IF 32808 \in Range(BuildTypes(app, alg_)) THEN "valid" ELSE "absent",
+     fp_last |-> 32808 \in Range(BuildTypes(app, alg_)),
+     mi |-> IF 8 \in Range(BuildTypes(app, alg_)) THEN "valid" ELSE "absent",
+     sha |-> IF 28 \in Range(BuildTypes(app, alg_)) THEN "valid" ELSE "absent",
      user |-> IF Mech = "st" THEN "name" ELSE "absent", leak |-> FALSE]
-OutEv(id, cls, alg_) == [k |-> "out", id |-> id, same |-> TRUE, h |-> id, d |-> OutDesc(id, cls, alg_)]
+OutEv(id, cls, alg_, app) ==
+    [k |-> "out", id |-> id, same |-> TRUE, h |-> id, d |-> OutDesc(id, cls, alg_, app)]
 
 \* advance the monitor and record rejected properties
 Observe(o) == /\ mon' = Step(mon, o)
@@ -137,16 +155,16 @@ Init ==
 (***************************************************************************)
 (* send_request (client.rs:752)                                            *)
 (***************************************************************************)
-SendRequest(dt) ==
+SendRequest(dt, app) ==
     /\ nsent < MaxSends
     /\ LET t == now + dt IN
        /\ now' = t
-       /\ hist' = Append(hist, [a |-> "send", dt |-> dt])
+       /\ hist' = Append(hist, [a |-> "send", dt |-> dt, app |-> app])
        /\ IF Cardinality(DOMAIN tx) >= MaxTx
           THEN \* capacity check: nothing else happens
                /\ UNCHANGED <<tx, heap, est, lastReq, viol, alg, nsent, nind, fins>>
                /\ Observe([op |-> "send", t |-> t, res |-> "max", id |-> -1, ev |-> <<>>,
-                           snap |-> Snap])
+                           arg |-> [method |-> 1, app_types |-> app], snap |-> Snap])
           ELSE LET id == nsent + 1
                    \* set_timeout: staleness reset, last_request, RtoManager::new + first interval
                    est1 == IF ~Reliable /\ lastReq >= 0 /\ t - lastReq > StaleTicks
@@ -162,10 +180,10 @@ SendRequest(dt) ==
                        /\ lastReq' = IF Reliable THEN lastReq ELSE t
                        /\ UNCHANGED <<tx, heap, viol, alg, nsent, nind, fins>>
                        /\ Observe([op |-> "send", t |-> t, res |-> "internal", id |-> -1,
-                                   ev |-> <<>>,
+                                   ev |-> <<>>, arg |-> [method |-> 1, app_types |-> app],
                                    snap |-> SnapOf(tx, heap, est1,
                                                    IF Reliable THEN lastReq ELSE t, viol, alg)])
-                  ELSE LET rec == [sample |-> t, latest |-> t, lastRto |-> n.iv, rtt |-> rtt,
+                  ELSE LET rec == [sample |-> t, latest |-> t, lastRto |-> n.iv, rtt |-> rtt, app |-> app,
                                    rtoU |-> IF Reliable THEN Timeout * U ELSE est1.rto,
                                    rm |-> n.c.rm, rc |-> n.c.rc, lastRm |-> n.c.lastRm]
                            tx1 == (id :> rec) @@ tx
@@ -175,20 +193,22 @@ SendRequest(dt) ==
                           /\ nsent' = id
                           /\ UNCHANGED <<viol, alg, nind, fins>>
                           /\ Observe([op |-> "send", t |-> t, res |-> "ok", id |-> id,
-                                      ev |-> <<OutEv(id, "request", alg)>> \o NotifEv(heap1, t),
+                                      arg |-> [method |-> 1, app_types |-> app],
+                                      ev |-> <<OutEv(id, "request", alg, app)>> \o NotifEv(heap1, t),
                                       snap |-> SnapOf(tx1, heap1, est1, lr1, viol, alg)])
 
 (***************************************************************************)
 (* send_indication (client.rs:800): no table / heap / estimator effect     *)
 (***************************************************************************)
-SendIndication(dt) ==
+SendIndication(dt, app) ==
     /\ nind < MaxInd
     /\ LET t == now + dt  id == 50 + nind IN
        /\ now' = t /\ nind' = nind + 1
        /\ hist' = Append(hist, [a |-> "indic", dt |-> dt])
        /\ UNCHANGED <<tx, heap, est, lastReq, viol, alg, nsent, fins>>
        /\ Observe([op |-> "indic", t |-> t, res |-> "ok", id |-> id,
-                   ev |-> <<OutEv(id, "indication", alg)>>, snap |-> Snap])
+                   arg |-> [method |-> 1, app_types |-> app],
+                   ev |-> <<OutEv(id, "indication", alg, app)>>, snap |-> Snap])
 
 (***************************************************************************)
 (* on_buffer_recv (client.rs:833), the pipeline in code order              *)
@@ -281,7 +301,7 @@ ProcessExpired(exp, t, s) ==
                                      [x EXCEPT !.sample = -1, !.latest = t, !.lastRto = n.lastRto,
                                                !.rm = n.c.rm, !.rc = n.c.rc]],
                                   !.heap = @ \cup {[id |-> id, at |-> t, dur |-> n.lastRto]},
-                                  !.ev = Append(@, OutEv(id, "request", alg))])
+                                  !.ev = Append(@, OutEv(id, "request", alg, x.app))])
                  ELSE ProcessExpired(Tail(exp), t,
                         [s EXCEPT !.tx = IF FixD1 THEN [i \in (DOMAIN @) \ {id} |-> @[i]]
                                          ELSE [@ EXCEPT ![id] = [x EXCEPT !.rc = 0]],
@@ -306,8 +326,8 @@ OnTimeout(dt) ==
                    snap |-> SnapOf(s.tx, s.heap, est, lastReq, s.viol, alg)])
 
 Next ==
-    \/ \E dt \in Dts : SendRequest(dt)
-    \/ \E dt \in Dts : SendIndication(dt)
+    \/ \E dt \in Dts, app \in Apps : SendRequest(dt, app)
+    \/ \E dt \in Dts, app \in Apps : SendIndication(dt, app)
     \/ \E dt \in Dts, msg \in Msgs : Recv(dt, msg)
     \/ \E dt \in Dts : OnTimeout(dt)
 
